@@ -37,7 +37,7 @@ m = {
         {"name": "vx", "path": "/verif/vx", "serves_properties": sorted(props), "kind_free_text": "syn/prettyplease extractor + contract splicer; regex literal -> SMT-LIB RegLan"},
         {"name": "verus", "path": "/usr/local/bin/verus", "serves_properties": sorted(p for p in props if props[p].get("units")), "kind_free_text": "deductive verifier (z3 back end), single generated file per unit"},
         {"name": "cex", "path": "/verif/cex", "serves_properties": sorted(p for p in props if props[p].get("units") or props[p].get("cex_families")), "kind_free_text": "bounded counterexample search on the real crate (path dependency on /repo): supplies concrete failing inputs for replay files, settles lost-anchor cases, bounded stand-in for assumed contracts; never counted as proof"},
-        {"name": "cliengine", "path": "/verif/lib/cliengine.py", "serves_properties": sorted(p for p in props if props[p].get("cli_discipline")), "kind_free_text": "process-level bounded family on the real binary (streams, exit status, failing git); bounded only, never counted as proof"},
+        {"name": "cliengine", "path": "/verif/lib/cliengine.py", "serves_properties": sorted(p for p in props if props[p].get("cli_families")), "kind_free_text": "process-level bounded family on the real binary (streams, exit status, failing git); bounded only, never counted as proof"},
         {"name": "rengine", "path": "/verif/lib/rengine.py", "serves_properties": sorted(p for p in props if props[p].get("regex")), "kind_free_text": "z3 / cvc5 emptiness queries on regular languages, witnesses replayed on the real binary"},
     ],
     "checks": checks,
